@@ -142,6 +142,17 @@ def irregular_cases(rng, tier):
     cases.append(dict(kind='L-shape', center=(0.5, 0.5), pts=l_, vals=[1.5 * i - 2 for i in range(len(l_))]))
     sq = [(1., 0.), (2., 0.), (0., 1.), (0., 2.), (-1., 0.), (0., -1.)]
     cases.append(dict(kind='same-ray', center=(0., 0.), pts=sq, vals=[0.5 * i for i in range(len(sq))]))
+    # domains far from the origin (map coordinates): the spline depends on differences of coordinates only
+    for ox, oy in ((3.0e4, -2.0e4), (5.0e6, 1.0e6)):
+        m = 9
+        pts = [(ox + (1 + 0.3 * math.sin(3 * a)) * math.cos(a), oy + (1 + 0.3 * math.sin(3 * a)) * math.sin(a))
+               for a in [2 * math.pi * (i + 0.37) / m for i in range(m)]]
+        cases.append(dict(kind=f'far-from-origin {ox:g}', center=(ox, oy), pts=pts, vals=[math.cos(2.0 * i) for i in range(m)], property_only=True))
+    # a dense boundary: several hundred distinct control points less than 0.01 apart
+    m = 240 if tier == 'quick' else 400
+    pts = [(0.3 * math.cos(2 * math.pi * i / m), 0.3 * math.sin(2 * math.pi * i / m)) for i in range(m)]
+    cases.append(dict(kind=f'dense ({m} points, spacing {2 * math.pi * 0.3 / m:.4f})', center=(0.01, -0.02), pts=pts,
+                      vals=[math.sin(7 * 2 * math.pi * i / m) for i in range(m)], property_only=True))
     return cases
 
 
@@ -198,12 +209,16 @@ def extra_phase(rep, tier, seed):
             except Exception as e:
                 failing.append(dict(ctx, error=f'{type(e).__name__}: {e}'))
                 break
-            err = max(abs(g - v) / (1 + abs(v)) for g, v in zip(got, case['vals']))
+            # rounding of L_D (exactly 0 at the control points over the reals) is amplified by the size of the raw network output
+            nmag = float(net(torch.cat([xs, ys], 1)).detach().abs().max())
+            err = max(abs(g - v) / (1 + abs(v) + 1e-2 * nmag) for g, v in zip(got, case['vals']))
             stats['max_control_error'] = max(stats['max_control_error'], err)
             if not err <= 1e-6:
                 failing.append(dict(ctx, violated='enforced function differs from the prescribed value at a Dirichlet control point',
                                     got=got, surviving_control_points=len(cleaned)))
                 break
+        if case.get('property_only'):
+            continue        # the property was evaluated above; the exact correspondence is run on the small, well-scaled systems
         if len(captured) != 3:
             broken.append(dict(kind='correspondence', stream='TPS', detail=f'{len(captured)} linear solves instead of 3', case=case['kind']))
             continue
